@@ -92,6 +92,9 @@ WINDOW_TEMPLATES = {
     # observers against a send+drop
     "observe":            ("u",  ["drop s;isterm r;tryr 0", "send 31;drop s"]),
     "two-close":          ("1",  ["try 1 0 0;close s", "close r;len r"]),
+    # realtime tries that are REFUSED (no receiver left / closed): still one lock attempt, never a blocking one
+    "rt-refused":         ("1",  ["drop r;try 1 0 1;try 2 1 1", "drop r;len s;isclosed s"]),
+    "rt-refused-closed":  ("1",  ["close s;try 1 0 1;try 2 1 1;tryr 1", "len s;isclosed r"]),
     # handle counts against a concurrent close / drop
     "clone-close":        ("1",  ["clone s 0;scount r;isclosed s", "close r;scount r;rcount s"]),
     "clone-close-r":      ("1",  ["clone r 1;rcount s;isclosed s", "close s;isclosed s"]),
